@@ -416,3 +416,12 @@ def finalize(sm, rep, tier, results):
     rep.floor('CellVariable operator methods', len({o['construct'] for o in rep.obs if o['rule'] == 'O1' and o['construct'].startswith('cell.')}), 18)
     rep.floor('FaceVariable operator methods', len({o['construct'] for o in rep.obs if o['rule'] == 'O1' and o['construct'].startswith('face.')}), 18)
     rep.floor('funceval/faceeval arities', sum(1 for o in rep.obs if o['rule'] == 'O5'), 24)
+    # positive controls: operand order matters to the oracle; the alias graph sees a shared array
+    from ..arrays import Ctx, const_arr
+    from ..interp import Interp
+    it = Interp(sm, Ctx())
+    x, y = Rat.atom(('ctl', 'x')), Rat.atom(('ctl', 'y'))
+    rep.control('O1 oracle: __rsub__ is other - self, __sub__ is self - other', is_zero(expected(it, '__rsub__', x, y) - (y - x)) and is_zero(expected(it, '__sub__', x, y) - (x - y)) and not is_zero((y - x) - (x - y)))
+    shared = Box(const_arr((Rat.const(2),), ZERO))
+    o1, o2 = AObj('CellVariable', {'_value': shared}), AObj('CellVariable', {'_value': shared})
+    rep.control('O4 alias graph reports a shared value array', any(k in boxes_of(o2) for k in boxes_of(o1) if k[0] == 'box'))
